@@ -84,7 +84,7 @@ void paren_rec(view_t<D>& cur, std::vector<long> const& a, std::size_t pos, any_
 		}
 		return;
 	}
-	if constexpr(sizeof...(As) < static_cast<std::size_t>(D) && sizeof...(As) < 4) {
+	if constexpr(sizeof...(As) < static_cast<std::size_t>(D) && sizeof...(As) < 5) {
 		long k = a[pos * 3], x = a[pos * 3 + 1], y = a[pos * 3 + 2];
 		if(k == 0) { paren_rec<D, M>(cur, a, pos + 1, out, as..., static_cast<multi::index>(x)); }
 		else if(k == 1) { paren_rec<D, M>(cur, a, pos + 1, out, as..., multi::irange(x, y)); }
